@@ -41,3 +41,156 @@ Definition run (name : string) (l : list inp) : val O :=
 Definition check (c : kcase) : string :=
   cmp_out h mn (run (kname c) (kins c)) (kout c) (ktol c).
 End D.
+
+(* ------------------------------------------------------------------------------------------------
+   Whole-array cases.  The observation holds the operands as ARRAYS with labelled dimensions (values
+   in C order of the operand's own logical dims/shape, whatever its memory layout was) and the result
+   array.  Which operand element belongs to result element k is decided HERE, by dimension label:
+   scipp's broadcasting is by name, so Ltotal(y,x) and two_theta(x,y) (or a transposed / sliced view)
+   describe the same pixel grid.  The expected result has exactly the union of the operands' labelled
+   dims (any order); every element is compared with the element-wise model above. *)
+Record arr := mkarr { adims : list string; ashape : list nat; avals : list Q;
+                      asc : Q; adm : dims; adt : dtype }.
+Inductive aout :=
+| AOutErr (cls : string)
+| AOut (rdims : list string) (rshape : list nat) (vals : list outcome).
+Record acase := mkac { acname : string; acins : list arr; acout : aout; actol : Q }.
+
+Fixpoint lookup (d : string) (ds : list string) (ix : list nat) : option nat :=
+  match ds, ix with
+  | d' :: ds', i :: ix' => if String.eqb d d' then Some i else lookup d ds' ix'
+  | _, _ => None
+  end.
+(* C-order multi-index of flat position k *)
+Fixpoint unravel_rev (k : nat) (rshape_rev : list nat) : list nat :=
+  match rshape_rev with
+  | [] => []
+  | s :: r => (Nat.modulo k s) :: unravel_rev (Nat.div k s) r
+  end.
+Definition unravel (k : nat) (shape : list nat) : list nat := rev (unravel_rev k (rev shape)).
+Fixpoint flat_aux (ds : list string) (ss : list nat) (rd : list string) (ix : list nat) (acc : nat) : option nat :=
+  match ds, ss with
+  | [], [] => Some acc
+  | d :: ds', s :: ss' =>
+      match lookup d rd ix with
+      | Some i => if Nat.ltb i s then flat_aux ds' ss' rd ix (acc * s + i) else None
+      | None => None
+      end
+  | _, _ => None
+  end.
+(* flat position, in operand a, of the element that belongs to the result element with multi-index ix *)
+Definition flat (a : arr) (rd : list string) (ix : list nat) : option nat :=
+  flat_aux (adims a) (ashape a) rd ix 0.
+Definition prod (l : list nat) : nat := fold_right Nat.mul 1%nat l.
+
+(* union of the labelled dims of the operands; None = two operands disagree on the size of a dim *)
+Fixpoint dim_size (d : string) (m : list (string * nat)) : option nat :=
+  match m with [] => None | (d', s) :: m' => if String.eqb d d' then Some s else dim_size d m' end.
+Fixpoint add_dims (ds : list string) (ss : list nat) (m : list (string * nat)) : option (list (string * nat)) :=
+  match ds, ss with
+  | [], [] => Some m
+  | d :: ds', s :: ss' =>
+      match dim_size d m with
+      | Some s' => if Nat.eqb s s' then add_dims ds' ss' m else None
+      | None => add_dims ds' ss' (m ++ [(d, s)])
+      end
+  | _, _ => None
+  end.
+Fixpoint merge_dims (l : list arr) (m : list (string * nat)) : option (list (string * nat)) :=
+  match l with
+  | [] => Some m
+  | a :: l' => match add_dims (adims a) (ashape a) m with Some m' => merge_dims l' m' | None => None end
+  end.
+Definition same_dims (m : list (string * nat)) (rd : list string) (rs : list nat) : bool :=
+  Nat.eqb (List.length m) (List.length rd) && Nat.eqb (List.length rd) (List.length rs)
+  && forallb (fun p => match dim_size (fst p) (combine rd rs) with Some s => Nat.eqb s (snd p) | None => false end) m.
+Definition arr_ok (a : arr) : bool :=
+  Nat.eqb (List.length (adims a)) (List.length (ashape a)) && Nat.eqb (List.length (avals a)) (prod (ashape a)).
+
+Section DA.
+Variables h mn : Q.
+Definition elem (a : arr) (n : nat) : inp := mkinp (nth n (avals a) 0%Q) (asc a) (adm a) (adt a).
+Definition pick (rd : list string) (ix : list nat) (a : arr) : option inp :=
+  match flat a rd ix with Some n => Some (elem a n) | None => None end.
+Fixpoint all_some {A} (l : list (option A)) : option (list A) :=
+  match l with
+  | [] => Some []
+  | Some x :: l' => match all_some l' with Some r => Some (x :: r) | None => None end
+  | None :: _ => None
+  end.
+(* first disagreement "<reason>@<k>" over the result elements, "" if none *)
+Fixpoint first_fail (name : string) (ins : list arr) (rd : list string) (rs : list nat) (tol : Q)
+         (k : nat) (vals : list outcome) : string :=
+  match vals with
+  | [] => ""
+  | o :: vals' =>
+      let r := match all_some (map (pick rd (unravel k rs)) ins) with
+               | Some l => cmp_out h mn (run h mn name l) o tol
+               | None => "operand-index"
+               end in
+      if String.eqb r "" then first_fail name ins rd rs tol (S k) vals'
+      else r ++ "@" ++ nat_str k
+  end.
+Definition acheck (c : acase) : string :=
+  if negb (forallb arr_ok (acins c)) then "malformed-operand"
+  else
+  match merge_dims (acins c) [], acout c with
+  | None, AOutErr _ => ""                            (* inconsistent grids: both refuse *)
+  | None, AOut _ _ _ => "model-raises-DimensionError"
+  | Some _, AOutErr cls =>
+      (* the model on the first elements: if it has a value, the implementation must not raise *)
+      cmp_out h mn (run h mn (acname c) (map (fun a => elem a 0) (acins c))) (OutErr cls) (actol c)
+  | Some m, AOut rd rs vals =>
+      if negb (same_dims m rd rs) then "result-dims"
+      else if negb (Nat.eqb (List.length vals) (prod rs)) then "result-length"
+      else first_fail (acname c) (acins c) rd rs (actol c) 0 vals
+  end.
+End DA.
+
+(* the matching is by label: the same 2 x 3 grid stored (y,x) and (x,y) yields the same elements *)
+Definition ex_yx := mkarr ["y"; "x"] [2; 3]%nat [1; 2; 3; 4; 5; 6]%Q 1%Q [] DF64.
+Definition ex_xy := mkarr ["x"; "y"] [3; 2]%nat [1; 4; 2; 5; 3; 6]%Q 1%Q [] DF64.
+Example flat_by_label :
+  map (fun k => (flat ex_yx ["y"; "x"] (unravel k [2; 3]%nat), flat ex_xy ["y"; "x"] (unravel k [2; 3]%nat)))
+      [0; 1; 2; 3; 4; 5]%nat
+  = [(Some 0, Some 0); (Some 1, Some 2); (Some 2, Some 4); (Some 3, Some 1); (Some 4, Some 3); (Some 5, Some 5)]%nat.
+Proof. vm_compute. reflexivity. Qed.
+Example pick_by_label :
+  forallb (fun k => match flat ex_yx ["y"; "x"] (unravel k [2; 3]%nat), flat ex_xy ["y"; "x"] (unravel k [2; 3]%nat) with
+                    | Some i, Some j => Qeq_bool (nth i (avals ex_yx) 0%Q) (nth j (avals ex_xy) 0%Q)
+                    | _, _ => false end) [0; 1; 2; 3; 4; 5]%nat = true.
+Proof. vm_compute. reflexivity. Qed.
+Example merge_example :
+  merge_dims [mkarr ["tof"] [4]%nat [] 1%Q [] DF64; ex_yx; ex_xy] [] = Some [("tof", 4); ("y", 2); ("x", 3)]%nat
+  /\ same_dims [("tof", 4); ("y", 2); ("x", 3)]%nat ["y"; "x"; "tof"] [2; 3; 4]%nat = true
+  /\ merge_dims [ex_yx; mkarr ["x"; "y"] [2; 3]%nat [] 1%Q [] DF64] [] = None.
+Proof. vm_compute. repeat split; reflexivity. Qed.
+
+(* general form: for a 2-d operand the element chosen for a result element depends only on the LABELLED
+   indices, so an operand and its transpose (same labelled elements, other storage order) contribute the
+   same element to every result element: the model's array result does not depend on the dim order. *)
+Lemma flat_2d : forall d1 d2 n1 n2 vs s dm dt rd ix i j,
+  lookup d1 rd ix = Some i -> lookup d2 rd ix = Some j -> (i < n1)%nat -> (j < n2)%nat ->
+  flat (mkarr [d1; d2] [n1; n2] vs s dm dt) rd ix = Some (i * n2 + j)%nat.
+Proof.
+  intros d1 d2 n1 n2 vs s dm dt rd ix i j H1 H2 Hi Hj.
+  unfold flat; cbn [flat_aux adims ashape]. rewrite H1.
+  destruct (Nat.ltb_spec i n1) as [_|C]; [|exfalso; apply (Nat.lt_irrefl i); eapply Nat.lt_le_trans; eauto].
+  rewrite H2.
+  destruct (Nat.ltb_spec j n2) as [_|C]; [|exfalso; apply (Nat.lt_irrefl j); eapply Nat.lt_le_trans; eauto].
+  f_equal.
+Qed.
+Theorem pick_transpose_invariant : forall d1 d2 n1 n2 vs vt s dm dt rd ix i j,
+  lookup d1 rd ix = Some i -> lookup d2 rd ix = Some j -> (i < n1)%nat -> (j < n2)%nat ->
+  nth (j * n1 + i) vt 0%Q = nth (i * n2 + j) vs 0%Q ->          (* vt is vs transposed *)
+  pick rd ix (mkarr [d2; d1] [n2; n1] vt s dm dt) = pick rd ix (mkarr [d1; d2] [n1; n2] vs s dm dt).
+Proof.
+  intros d1 d2 n1 n2 vs vt s dm dt rd ix i j H1 H2 Hi Hj Hv.
+  unfold pick. rewrite (flat_2d d1 d2 n1 n2 vs s dm dt rd ix i j H1 H2 Hi Hj).
+  rewrite (flat_2d d2 d1 n2 n1 vt s dm dt rd ix j i H2 H1 Hj Hi).
+  unfold elem; cbn [avals asc adm adt]. rewrite Hv. reflexivity.
+Qed.
+Example pick_transpose_invariant_sat :
+  lookup "y" ["y"; "x"] [1; 2]%nat = Some 1%nat /\ lookup "x" ["y"; "x"] [1; 2]%nat = Some 2%nat
+  /\ nth (2 * 2 + 1) (avals ex_xy) 0%Q = nth (1 * 3 + 2) (avals ex_yx) 0%Q.
+Proof. vm_compute. repeat split; reflexivity. Qed.
